@@ -79,19 +79,26 @@ def t_sc(t):
 
 
 def min2(a, b):
-    return ite(a <= b, a, b)
+    return ite(b < a, b, a)
+
+
+def t_al(t, e0):
+    """signed significand of the triple t aligned at exponent e0 <= t.exp:  D(t) / 2^e0"""
+    return ite(t[0], -(t[2] * pow2(t[1] - e0)), t[2] * pow2(t[1] - e0))
 
 
 def t_is_sum(r, a, b):
     """D(r) == D(a) + D(b), aligned at the smallest of the three exponents"""
-    e0 = min2(r[1], min2(a[1], b[1]))
-    return t_sc(r) * pow2(r[1] - e0) == t_sc(a) * pow2(a[1] - e0) + t_sc(b) * pow2(b[1] - e0)
+    e0 = min2(a[1], b[1])
+    return ((t_al(r, e0) == t_al(a, e0) + t_al(b, e0)) if r[1] >= e0 else
+            (t_sc(r) == t_al(a, r[1]) + t_al(b, r[1])))
 
 
 def t_is_diff(r, a, b):
     """D(r) == D(a) - D(b)"""
-    e0 = min2(r[1], min2(a[1], b[1]))
-    return t_sc(r) * pow2(r[1] - e0) == t_sc(a) * pow2(a[1] - e0) - t_sc(b) * pow2(b[1] - e0)
+    e0 = min2(a[1], b[1])
+    return ((t_al(r, e0) == t_al(a, e0) - t_al(b, e0)) if r[1] >= e0 else
+            (t_sc(r) == t_al(a, r[1]) - t_al(b, r[1])))
 
 
 def t_is_prod(r, a, b):
